@@ -46,6 +46,19 @@ Example topn_slice_nonvacuous :
 Proof. exact topn_slice_ex. Qed.
 Print Assumptions topn_slice_nonvacuous.
 
+(* topn_slice quantifies over all n and from, so it holds in particular when from + n exceeds
+   PreAllocSizeSkipCap (Gen.ParamsTopN.prealloc_size_skip_cap, read from the source on every run):
+   that constant only caps the capacity passed to make() (TopN.backing_size) and is read nowhere
+   else in the model.  Concretely, with 1100 tied matches the page [995, 1005) is complete and a
+   request for 1101 hits returns all 1100. *)
+Example topn_slice_beyond_prealloc_cap :
+  (prealloc_size_skip_cap <? 995 + 10) = true /\
+  rmap (fun r => map h_doc (fst r)) (topn_search (fun _ (b : unit) => b) 10 ex_order1 (PFrom 995) [] tt exdeep)
+    = Ok [370; 377; 384; 391; 398; 405; 412; 419; 426; 433] /\
+  rmap (fun r => length (fst r)) (topn_search (fun _ (b : unit) => b) 1101 ex_order1 (PFrom 0) [] tt exdeep) = Ok 1100%nat.
+Proof. exact topn_slice_deep_ex. Qed.
+Print Assumptions topn_slice_beyond_prealloc_cap.
+
 (* in every state reached after the hits P (inv), a hit rejected by the bound
    lowestMatchOutsideResults is not among the best k of P ++ [d], and those are unchanged *)
 Theorem lowest_outside_sound : forall descs k sl P d,
